@@ -883,13 +883,24 @@ func (t *streamableHTTPClientTransport) sendResponseToServer(response interface{
 		return
 	}
 
-	ctx, cancel := context.WithTimeout(context.Background(), 30*time.Second)
+	// An answer to a server request is background activity of the listening stream:
+	// it carries the context values of the handshake that opened the stream.
+	base := context.Background()
+	t.getSSEConn.mutex.Lock()
+	if t.getSSEConn.ctx != nil {
+		base = icontext.WithoutCancel(t.getSSEConn.ctx)
+	}
+	t.getSSEConn.mutex.Unlock()
+	ctx, cancel := context.WithTimeout(base, 30*time.Second)
 	defer cancel()
 
 	httpReq, err := http.NewRequestWithContext(ctx, http.MethodPost, t.serverURL.String(), bytes.NewReader(respBytes))
 	if err != nil {
 		t.logger.Errorf("Error creating HTTP request for response: %v", err)
 		return
+	}
+	if len(t.path) != 0 {
+		httpReq.URL.Path = t.path
 	}
 
 	httpReq.Header.Set("Content-Type", "application/json")
@@ -904,6 +915,14 @@ func (t *streamableHTTPClientTransport) sendResponseToServer(response interface{
 	// Add session ID if available
 	if t.sessionID != "" {
 		httpReq.Header.Set(httputil.SessionIDHeader, t.sessionID) // Use correct MCP protocol header: Mcp-Session-Id.
+	}
+
+	// Apply HTTP before-request functions.
+	if t.client != nil {
+		if err := t.client.applyHTTPBeforeRequest(ctx, httpReq); err != nil {
+			t.logger.Errorf("HTTP before-request failed, response not sent: %v", err)
+			return
+		}
 	}
 
 	var resp *http.Response
@@ -951,8 +970,15 @@ func (t *streamableHTTPClientTransport) terminateSession(ctx context.Context) er
 		}
 	}
 
-	// Send request
-	httpResp, err := t.httpClient.Do(httpReq)
+	// Apply HTTP before-request functions.
+	if t.client != nil {
+		if err := t.client.applyHTTPBeforeRequest(ctx, httpReq); err != nil {
+			return fmt.Errorf("HTTP before-request failed: %w", err)
+		}
+	}
+
+	// Send request using the handler
+	httpResp, err := t.httpReqHandler.Handle(ctx, t.httpClient, httpReq)
 	if err != nil {
 		return fmt.Errorf("HTTP request failed: %w", err)
 	}
